@@ -24,14 +24,17 @@ def Act.pure (F : Snap) : Act → Snap → Except Err Snap
     | .error e => .error e
     | .ok G => .ok { R with numvar := G.nvars, clauses := G.clauses }
   | .liftSelectors _, _ => .error modelErr          -- not covered by the refinement (see `Act.Covered`)
-  | .loadShuffled _ _ _, _ => .error modelErr
+  | .loadShuffled _ tbl mapping, R =>
+    match Shuffle.foldE (Shuffle.loadStep F.cnf tbl) R.cnf mapping with
+    | .error e => .error e
+    | .ok G => .ok { R with numvar := G.nvars, clauses := G.clauses }
 
 /-- the statements covered by the refinement theorem, reading from the input `f` -/
 def Act.Covered (f : Nat) : Act → Prop
   | .copyHeader src => src = f
   | .substFrom src _ => src = f
   | .liftSelectors _ => False
-  | .loadShuffled _ _ _ => False
+  | .loadShuffled src _ _ => src = f
   | _ => True
 
 def runActsPure (F : Snap) : List Act → Snap → Except Err Snap
@@ -108,6 +111,101 @@ theorem snap_substLoop {x : Nat} (N : Nat) (enc : Int → List Clause) :
           | ok G' => simp only [hrun] at ih ⊢; exact ih
     · cases hr
 
+theorem readIntsAll_length {s : Store} : ∀ {as : List Addr} {cs : List (List Int)},
+    readIntsAll s as = some cs → as.length = cs.length
+  | [], cs, h => by simp [readIntsAll] at h; subst h; rfl
+  | a :: as, cs, h => by
+    unfold readIntsAll at h
+    split at h
+    · rename_i x xs e1 e2; cases h; simp [readIntsAll_length e2]
+    · cases h
+
+theorem readIntsAll_getElem? {s : Store} : ∀ {as : List Addr} {cs : List (List Int)} (i : Nat),
+    readIntsAll s as = some cs → (as[i]?).bind (readInts s) = cs[i]?
+  | [], cs, i, h => by simp [readIntsAll] at h; subst h; simp
+  | a :: as, cs, i, h => by
+    unfold readIntsAll at h
+    split at h
+    · rename_i x xs e1 e2
+      cases h
+      cases i with
+      | zero => simpa using e1
+      | succ j => simpa using readIntsAll_getElem? j e2
+    · cases h
+
+/-- `F[old]`: indexing the list of clause objects and reading the object = indexing the list of clauses -/
+theorem pyIdx_read {s : Store} {as : List Addr} {cs : List (List Int)} (h : readIntsAll s as = some cs) (i : Int) :
+    match Shuffle.pyIndex cs i with
+    | .ok c => ∃ a, pyIdx as i = .ok a ∧ readInts s a = some c
+    | .error e => pyIdx as i = .error e := by
+  have hl := readIntsAll_length h
+  simp only [Shuffle.pyIndex, pyIdx, hl]
+  generalize (if i < 0 then i + (cs.length : Int) else i) = j
+  by_cases hj : j < 0
+  · simp [hj]
+  · simp only [hj, if_false]
+    have hg := readIntsAll_getElem? j.toNat h
+    cases hc : cs[j.toNat]? with
+    | none =>
+      cases ha : as[j.toNat]? with
+      | none => simp
+      | some a =>
+        have : j.toNat < as.length := by
+          rcases Nat.lt_or_ge j.toNat as.length with h' | h'
+          · exact h'
+          · simp [List.getElem?_eq_none h'] at ha
+        have : j.toNat < cs.length := by omega
+        simp [List.getElem?_eq_getElem this] at hc
+    | some c =>
+      cases ha : as[j.toNat]? with
+      | none => simp [ha, hc] at hg
+      | some a =>
+        simp only [ha, hc, Option.bind_some] at hg
+        exact ⟨a, rfl, hg⟩
+
+/-- the loop of `Shuffle` = `foldE (loadStep F tbl)` -/
+theorem snap_shuffleLoop {x f : Nat} {F : Snap} (tbl : List (Option Int)) :
+    ∀ (ms : List (Nat × Int)) (s : Store) (R : Snap), Sep s x f → snap s x = some R → snap s f = some F →
+      match Shuffle.foldE (Shuffle.loadStep F.cnf tbl) R.cnf ms with
+      | .ok G => (shuffleLoop x f tbl s ms).2 = .ok () ∧
+          snap (shuffleLoop x f tbl s ms).1 x = some { R with numvar := G.nvars, clauses := G.clauses }
+      | .error e => (shuffleLoop x f tbl s ms).2 = .error e
+  | [], s, R, _, hR, _ => by simpa [Shuffle.foldE, shuffleLoop, Snap.cnf] using hR
+  | m :: ms, s, R, hsep, hR, hF => by
+    obtain ⟨cl, hd, gr, as, L⟩ := layout_of_snap hR
+    obtain ⟨fcl, fhd, fgr, fas, LF⟩ := layout_of_snap hF
+    have hlen := readIntsAll_length L.hcs
+    unfold Shuffle.foldE shuffleLoop Shuffle.loadStep
+    simp only [readCNF, L.hx, LF.hx, readRefs, L.hcl, LF.hcl, Snap.cnf, hlen]
+    by_cases hm : m.2 ≠ (R.clauses.length : Int)
+    · simp [hm]
+    · simp only [hm, if_false]
+      have hidx := pyIdx_read LF.hcs (m.1 : Int)
+      cases hp : Shuffle.pyIndex F.clauses (m.1 : Int) with
+      | error e => simp only [hp] at hidx ⊢; simp [hidx]
+      | ok c =>
+        simp only [hp] at hidx ⊢
+        obtain ⟨a, ha, hc⟩ := hidx
+        simp only [ha, hc]
+        cases hsc : Shuffle.substClause tbl c with
+        | error e => rfl
+        | ok c' =>
+          simp only []
+          have h1 := snap_addClauseVals hR c' true
+          have hst := step_addClauseVals (x := x) c' true hsep.wtx
+          obtain ⟨ef, hsep'⟩ := sep_step hsep hst
+          rcases hq : addClauseVals s x c' true with ⟨s1, res⟩
+          rw [hq] at h1 ef hsep'
+          simp only [Snap.cnf] at h1
+          cases hadd : CNF.addClause ⟨R.numvar, R.clauses⟩ c' true with
+          | error e => simp only [hadd] at h1 ⊢; obtain ⟨e1, _⟩ := h1; subst e1; rfl
+          | ok G =>
+            simp only [hadd] at h1 ⊢
+            obtain ⟨e1, e2⟩ := h1
+            subst e1
+            have ih := snap_shuffleLoop tbl ms s1 _ hsep' e2 (by rw [ef]; exact hF)
+            exact ih
+
 /-- one statement: the heap operation and the pure effect agree (outcome and snapshot) -/
 theorem runAct_refines {s : Store} {r f : Nat} {R F : Snap} (a : Act) (hc : a.Covered f)
     (hsep : Sep s r f) (hR : snap s r = some R) (hF : snap s f = some F) :
@@ -144,7 +242,13 @@ theorem runAct_refines {s : Store} {r f : Nat} {R F : Snap} (a : Act) (hc : a.Co
       have L1 := snap_write_groups L m.groups
       exact (snap_write_numvar L1 m.numvar).snap
   | liftSelectors k => exact absurd hc (by simp [Act.Covered])
-  | loadShuffled src tbl mp => exact absurd hc (by simp [Act.Covered])
+  | loadShuffled src tbl mp =>
+    simp only [Act.Covered] at hc; subst hc
+    simp only [Act.pure, runAct]
+    have := snap_shuffleLoop (x := r) (f := src) (F := F) tbl mp s R hsep hR hF
+    cases hrun : Shuffle.foldE (Shuffle.loadStep F.cnf tbl) R.cnf mp with
+    | error e => simp only [hrun] at this ⊢; exact this
+    | ok G => simp only [hrun] at this ⊢; exact this
   | substFrom src enc =>
     simp only [Act.Covered] at hc; subst hc
     simp only [Act.pure, runAct, readCNF, LF.hx, readRefs, LF.hcl]
